@@ -1,9 +1,9 @@
 SPECIFICATION GSpec
 CONSTANTS Callers = {c1, c2, c3}
- MaxTick = 8
- MaxRot = 2
- MaxAtt = 3
+ MaxTick = 6
+ MaxRot = 1
+ MaxAtt = 2
  FreshKey = FALSE
- MaxJunk = 0
- Dev = {"GenIdOutsideLock"}
+ MaxJunk = 2
+ Dev = {}
 CHECK_DEADLOCK FALSE
